@@ -791,6 +791,81 @@ def law_groups(rng, n):
     return groups
 
 
+# ------------------------------------------------------------------ fn:avg over large integers
+# PROPERTY-LEVEL ORACLE on Go's own output (not the Coq model: avg_perm_invariant keeps its
+# hypothesis sum |x| <= 2^53, and WHICH float within the tolerance is returned depends on the row
+# order - that is the known finding N10, probed separately and not judged here).
+# What must hold despite N10's rounding, for n <= 20 integer rows x_i with M = max |x_i|:
+# evalAvg converts each row to float64 (relative error <= u = 2^-53 each, absolute <= u*M), adds them
+# one by one (n-1 roundings, each <= u * |partial sum| <= u * n*M*(1+O(u)), so the computed sum is off
+# by <= (n-1)*u*n*M; the standard bound |fl(sum) - sum| <= (n-1) u sum|x_i| + O(u^2)), and divides
+# once (one more rounding, <= u * |mean| <= u*M). After the division by n the absolute error of the
+# result is <= u*M + (n-1)*u*M + u*M = (n+1)*u*M + O(u^2). The tolerance used is twice that first-order
+# bound rounded up, AVG_TOL(n, M) = 2*(n+2)*2^-53*M (<= 44 ulps of M for n = 20), compared exactly
+# in rational arithmetic. A wrong accumulator (int64 wrap-around, 32-bit truncation, a dropped or
+# doubled row, division by n+-1 for large values) is off by a constant fraction of M.
+AVG_U_DEN = 1 << 53
+
+
+def avg_tol(vals):
+    from fractions import Fraction
+    return Fraction(2 * (len(vals) + 2) * max(abs(v) for v in vals), AVG_U_DEN)
+
+
+def gen_avg_large(rng):
+    """integer groups for fn:avg with values up to +-MaxInt64: equal boundary values, groups whose
+    exact sum leaves int64 (both signs), mixed signs that cancel, boundary values next to small ones"""
+    big = [MAX64, MAX64 - 1, MIN64, MIN64 + 1, 1 << 62, -(1 << 62), (1 << 62) + 1, 3 << 61, -(3 << 61),
+           1 << 61, 1 << 60, -(1 << 60), P53 + 1, -(P53 + 1), 1 << 54, (1 << 63) - (1 << 10)]
+    n = rng.choice([1, 2, 2, 3, 3, 4, 5, 7, 10, 20])
+    r = rng.random()
+    if r < 0.2:        # equal values
+        vals = [rng.choice(big + [rng.randint(MIN64, MAX64)])] * n
+    elif r < 0.45:     # one sign, sum overflows int64 as soon as n >= 2 or 3
+        sg = rng.choice([1, -1])
+        vals = [sg * rng.choice([MAX64, 1 << 62, 3 << 61, rng.randint(1 << 61, MAX64)]) for _ in range(n)]
+    elif r < 0.65:     # mixed signs
+        vals = [rng.choice(big + [rng.randint(MIN64, MAX64)]) for _ in range(n)]
+    elif r < 0.8:      # uniformly random int64
+        vals = [rng.randint(MIN64, MAX64) for _ in range(n)]
+    elif r < 0.9:      # large next to small
+        vals = [rng.choice([rng.choice(big), rng.randint(-1000, 1000), gen_int(rng)]) for _ in range(n)]
+    else:              # just beyond 2^53 .. 2^56
+        vals = [rng.choice([1, -1]) * rng.randint(P53, 1 << 56) for _ in range(n)]
+    return vals
+
+
+def avg_case(vals):
+    return {"k": "red", "f": "fn:avg", "nv": 1, "rows": [[N(v)] for v in vals]}
+
+
+def avg_prog(vals):
+    facts = " ".join("p(%d, %d)." % (i, v) for i, v in enumerate(vals))
+    return {"k": "prog", "src": "%s r(S) :- p(I, X) |> do fn:group_by(), let S = fn:avg(X)." % facts, "pred": "r"}
+
+
+def judge_avg_large(vals, out):
+    """None | message; out is the harness's output dict for the group"""
+    from fractions import Fraction
+    if "v" not in out or out["v"][0] != "f":
+        return "fn:avg over integers did not return a float64: %s" % json.dumps(out)
+    x = bits_float(out["v"][1])
+    if math.isnan(x) or math.isinf(x):
+        return "fn:avg over %d integers is %r" % (len(vals), x)
+    fx, tol = Fraction(x), avg_tol(vals)
+    lo, hi = min(vals), max(vals)
+    if fx < lo - tol or fx > hi + tol:
+        return "the average %r lies outside [min, max] = [%d, %d] of the group (tolerance %s)" % (x, lo, hi, float(tol))
+    if lo == hi and abs(fx - lo) > tol:
+        return "the average %r of %d equal values %d is not that value (tolerance %s)" % (x, len(vals), lo, float(tol))
+    mean = Fraction(sum(vals), len(vals))
+    if abs(fx - mean) > tol:
+        return "the average %r differs from the exact mean %s (= %r) by more than the float64 summation tolerance %s" % (
+            x, mean, float(mean), float(tol))
+    return None
+
+
+
 # ------------------------------------------------------------------ exhaustive block
 def exhaustive_cases():
     """every pair / triple over a set of boundary integers for the binary arithmetic
@@ -965,6 +1040,35 @@ def run(ck):
                 ck.violation({"property": "C07", "kind": "law violated on the implementation's own outputs",
                               "law": name, "input": desc, "why": msg, "cases": gcases,
                               "impl_outputs": o})
+    # ---- fn:avg over large integers (inside N10's trigger region): property-level oracle on Go's output
+    avg_groups = []
+    for path in sorted(glob.glob(os.path.join(os.path.dirname(__file__), "..", "corpus", "C07", "*.json"))):
+        avg_groups += json.load(open(path)).get("avg_large", [])
+    n_avg_corpus = len(avg_groups)
+    avg_groups += [gen_avg_large(rng) for _ in range(ck.n(400, 6000))]
+    n_avg_prog = ck.n(40, 400)
+    aouts = ck.run_go("c07", [avg_case(v) for v in avg_groups] + [avg_prog(v) for v in avg_groups[:n_avg_prog]])
+    avg_fail = avg_overflow = 0
+    for i, o in enumerate(aouts):
+        vals = avg_groups[i] if i < len(avg_groups) else avg_groups[i - len(avg_groups)]
+        via = "direct call" if i < len(avg_groups) else "one-rule program"
+        if i < len(avg_groups) and not MIN64 <= sum(vals) <= MAX64:
+            avg_overflow += 1
+        if "out" not in o:
+            msg, out = "panic / harness failure: %s" % json.dumps(o), o
+        else:
+            out = o["out"] if via == "direct call" else prog_as_single(avg_case(vals), o["out"])
+            msg = judge_avg_large(vals, out)
+        if msg:
+            avg_fail += 1
+            if len(ck.violations) < 5:
+                ck.violation({"property": "C07", "kind": "fn:avg over large integers: property-level oracle on the "
+                              "implementation's output (result within the float64 summation tolerance of the exact mean, "
+                              "inside [min, max], equal values average to themselves)",
+                              "law": "avg_value_large (oracle; not a Coq theorem)", "avg_large": vals, "via": via,
+                              "why": msg, "impl": out, "exact_mean": str(__import__("fractions").Fraction(sum(vals), len(vals)))})
+    ck.log("fn:avg over large integers: %d groups (%d with an exact sum outside int64), %d again as programs, %d failures"
+           % (len(avg_groups), avg_overflow, n_avg_prog, avg_fail))
     # ---- float addition law assumed by avg_perm_invariant, sampled on the real float64
     fa = []
     for _ in range(ck.n(300, 3000)):
@@ -984,7 +1088,7 @@ def run(ck):
         byf[key] = byf.get(key, 0) + 1
     errs = sum(1 for o in outs if "out" in o and "e" in o["out"])
     distinct = len(set(json.dumps(c, sort_keys=True) for c in cases if c.get("args") or c.get("rows")))
-    cov = {"evaluations": len(cases) + len(pc) + len(flat) + len(fa), "distinct_nontrivial": distinct,
+    cov = {"evaluations": len(cases) + len(pc) + len(flat) + len(fa) + len(aouts), "distinct_nontrivial": distinct,
            "rule": "argument tuples on EvalApplyFn/EvalReduceFn/Decide judged against the model in Coq "
                    "(corpus %d, random %d, exhaustive block %d), %d of them again through one-rule programs, "
                    "%d law groups (%d calls) judged on Go's outputs alone, %d float-addition samples; "
@@ -996,11 +1100,17 @@ def run(ck):
                                if exhaustive else "",
            "per_function": byf, "model_agree": agree, "outside_model": unmod, "disagreements": dis + pd,
            "go_error_results": errs, "program_cases_agree": pa, "law_groups": law_counts, "law_failures": law_fail,
+           "avg_large": {"oracle": "property-level oracle on Go's output (exact rational mean in Python, tolerance "
+                                   "2*(n+2)*2^-53*max|x|); not the Coq model",
+                         "groups": len(avg_groups), "from_corpus": n_avg_corpus, "exact_sum_outside_int64": avg_overflow,
+                         "again_as_programs": n_avg_prog, "failures": avg_fail},
            "samples": [stream[0], stream[1], stream[2], psrc[0] if psrc else None]}
     return ck.finish(cov, assumptions=[
         "model hand-written (coq/Builtin/Const.v, Fn.v); tied to functional/functional.go, builtin/builtin.go, ast/ast.go by differential evaluation only",
         "maps/structs in the main stream have keys with pairwise distinct Hash() (finding N9 otherwise)",
-        "fn:avg main stream: sum of |x| <= 2^53 (finding N10 beyond); avg_perm_invariant assumes float64 addition exact on such integers (sampled)",
+        "fn:avg judged by the model: sum of |x| <= 2^53 (finding N10 beyond); avg_perm_invariant assumes float64 addition exact on such integers (sampled)",
+        "fn:avg beyond 2^53 (values up to +-MaxInt64, exact sums outside int64): judged by a property-level oracle on Go's output "
+        "(within 2*(n+2)*2^-53*max|x| of the exact mean, inside [min,max]); the row-order dependence inside that tolerance stays finding N10",
         "float formatting, fn:string:replace with empty pattern, float reducers, time formatting/parsing: outside the model",
         "Constant.Equals is modelled as structural equality (hash is a function of the structure; C08)"])
 
@@ -1008,6 +1118,20 @@ def run(ck):
 def replay(ck, path):
     ck.build_harness()
     rep = json.load(open(path))
+    if "avg_large" in rep:
+        vals = rep["avg_large"]
+        if rep.get("via") == "one-rule program":
+            o = ck.run_go("c07", [avg_prog(vals)])[0]
+            out = prog_as_single(avg_case(vals), o["out"]) if "out" in o else o
+        else:
+            o = ck.run_go("c07", [avg_case(vals)])[0]
+            out = o.get("out", o)
+        msg = judge_avg_large(vals, out)
+        print("replay: fn:avg%s -> %s ; oracle: %s" % (vals, json.dumps(out), msg or "ok"))
+        if msg:
+            print("VIOLATION property=C07 replay=%s" % path)
+            return 1
+        return 0
     if "cases" in rep and "law" in rep and "case" not in rep:
         print("replay of a law group: re-run the listed cases through build/harness_c07 c07; law: %s; %s" % (rep["law"], rep.get("why")))
         outs = ck.run_go("c07", rep["cases"])
@@ -1041,11 +1165,14 @@ META = {
             "inverses, list membership enumerates exactly the elements, plus/minus/mult form the ring Z/2^64, "
             "x = (x div y)*y + x mod y with truncation and MinInt64 div -1 wrapping, division by zero is the error value, "
             "lt/le/gt/ge are one strict total order and its closure, string predicates equal prefix/suffix/infix on byte lists, "
-            "count/sum/min/max/avg invariant under permutation of the rows, collect_distinct up to set equality. The model is tied "
+            "count/sum/min/max/avg invariant under permutation of the rows (avg: for rows with sum |x| <= 2^53), collect_distinct up to set equality. The model is tied "
             "to functional.EvalApplyFn / EvalReduceFn / builtin.Decide on every run by evaluating generated argument tuples "
             "(boundary integers, nested structures, multi-part names, non-ASCII strings; exhaustive over boundary pairs in the "
-            "thorough tier) on both sides, a subset again through one-rule programs, and the laws are evaluated directly on Go's outputs.",
+            "thorough tier) on both sides, a subset again through one-rule programs, and the laws are evaluated directly on Go's outputs. "
+            "fn:avg over integers beyond 2^53 (up to +-MaxInt64, exact sums outside int64, mixed signs) is judged by a property-level "
+            "oracle on Go's output, not by a theorem: the result is within 2*(n+2)*2^-53*max|x| of the exact rational mean and inside [min, max].",
     "note": "Trusted: Coq kernel + vm_compute (primitive floats only in the judge of fn:avg and in avg_order_refuted); the hand-written "
             "model is tied to the code by sampled differential evaluation; hash-equal map keys (N9) and fn:avg beyond 2^53 (N10) "
-            "are excluded from the main stream and probed; float formatting and time formatting are not modelled.",
+            "are excluded from the model-judged stream and probed (N10 = row-order dependence within the float64 summation tolerance; "
+            "a result outside that tolerance is reported); float formatting and time formatting are not modelled.",
 }
